@@ -302,9 +302,20 @@ pub mod base64 {
 }
 
 pub mod hex {
+    use super::super::sp::*;
     use vstd::prelude::*;
     pub trait ToHex {}
     pub trait FromHex {}
+    /// lower-case hex digit of a nibble
+    pub open spec fn hex_digit(n: int) -> char { if n < 10 { ((0x30 + n) as u8) as char } else { ((0x61 + n - 10) as u8) as char } }
+    /// `hex::encode`: two lower-case hex digits per byte
+    pub open spec fn hex_chars(b: Seq<u8>) -> Seq<char> {
+        Seq::new(2 * b.len(), |i: int| hex_digit(if i % 2 == 0 { (b[i / 2] / 16) as int } else { (b[i / 2] % 16) as int }))
+    }
+    #[verifier::external_body]
+    pub fn encode<T: AsRef<[u8]>>(data: T) -> (r: String)
+        ensures r@ == hex_chars(data.aref()@), is_ascii_chars(r@),
+    { unimplemented!() }
 }
 
 pub mod sha3 {
